@@ -16,6 +16,7 @@ mod c17_cursor;
 mod c17_ring;
 mod c17_spsc;
 mod c17_waker;
+mod c17_wakeup_queue;
 mod c17_worker;
 mod exec;
 mod heap;
@@ -33,6 +34,7 @@ pub fn property() -> Property {
     subs.extend(c17_waker::subs());
     subs.extend(c17_cursor::subs());
     subs.extend(c17_ring::subs());
+    subs.extend(c17_wakeup_queue::subs());
     Property {
         id: "C17",
         rule: RULE,
@@ -58,7 +60,7 @@ const RULE: &str = "Generated value = a bounded thread program plus a scheduler 
     returned Pending, OR >= 2 batches were pushed and the consumer's acquire returned Pending at least once) \
     [worker: the last sender's drop resolved a parked acquire or >= 2 submits with a parked receiver; waker: a parked \
     wait was resolved by a signal or by the peer's drop; cursor: the ring wrapped and one side found it full/empty; \
-    ring_threads: ring wrapped and both OS threads parked at least once]; a case is non-trivial when at least one of \
+    ring_threads: ring wrapped and both OS threads parked at least once; wakeup_queue_ops: a parked poller was woken and the poller's waker changed while parked; wakeup_queue_threads: the poller parked]; a case is non-trivial when at least one of \
     its schedules is. Distinct = distinct (program, seed) values; work units = schedules executed (ring_threads: entries).";
 
 const ASSUMPTIONS: &[&str] = &[
@@ -68,7 +70,7 @@ const ASSUMPTIONS: &[&str] = &[
     "The harness's global allocator fills cache-line-padded blocks with 0xA5 on allocation and quarantines them on free during an exploration, so that an unwritten slot and a post-free access are observable; the reference FIFO, the drop ledger and shuttle's scheduler / deadlock detection are the trusted base.",
     "spsc is single-producer/single-consumer: each handle is used by exactly one task; `mem::forget` of slices/handles is not exercised; zero-sized item types are not exercised.",
     "ring_threads (s2n-quic-platform socket::ring on real OS threads with yield_now injection) is the weakest tier: x86-TSO hardware interleavings only, not replayable; a hang is reported as harness failure (exit 2), never as a violation.",
-    "quic/s2n-quic-transport/src/wakeup_queue.rs is a private module (`mod wakeup_queue;`) with no public path: not exercised here (it is reached only indirectly by the endpoint-level properties).",
+    "quic/s2n-quic-transport/src/wakeup_queue.rs is a private module: its source file is compiled into this crate (symlink for the sequential model check wakeup_queue_ops; copy with its `std::sync::Mutex` / `core::sync::atomic::AtomicBool` imports redirected to shuttle for wakeup_queue_threads); `Arc` and `Waker` stay the std ones. The poller follows the documented discipline (wakeup_handled before looking at the component).",
 ];
 
 fn main() {
